@@ -39,11 +39,12 @@ PROBES = [
     "commit-without-deletes",
     "abort-exception",
     "abort-base-exception",
+    "abort-generator-exit",
     "empty-batch-after",
     "copy-checked",
     "exit-inside-active-except-handler",
 ]
-FAULTS = ["batch-abort", "batch-abort-base", "second-party-write"]
+FAULTS = ["batch-abort", "batch-abort-base", "batch-abandoned-generator-exit", "second-party-write"]
 COMPONENTS = {
     "real": ["trie.utils.db.ScratchDB (__getitem__/__setitem__/__delitem__/__contains__/copy/batch_commit)"],
     "stub": ["SimDB wrapped store with frozen monitor", "batch actor holding the with-block open", "second party writing the wrapped store"],
@@ -217,6 +218,8 @@ class World:
             if k not in self.buffer and res.get(k) != v:
                 self.viol("copy-mismatch", f"copy() shows {res.get(k)!r} for untouched wrapped key {k.hex()} = {v!r}")
         self.st.probe("copy-checked")
+        # the copy belongs to the caller: emptying it must not affect the batch
+        res.clear()
         return "ok"
 
     def op_other(self, cmd):
@@ -270,21 +273,30 @@ class World:
             out = "committed"
         else:
             exc = AbortB("abort") if how == "B" else AbortE("abort")
-            try:
-                g.send(("raise", exc))
-            except StopIteration:
-                out = "swallowed"
-            except BaseException as e:
-                out = "propagated" if e is exc else "replaced"
+            if how == "G":
+                # the coroutine holding the block open is abandoned (closed while suspended)
+                exc = GeneratorExit()
+                try:
+                    g.close()
+                    out = "closed"
+                except BaseException as e:
+                    out = "close-raised:" + type(e).__name__
             else:
-                raise HarnessError("actor yielded after raise")
+                try:
+                    g.send(("raise", exc))
+                except StopIteration:
+                    out = "swallowed"
+                except BaseException as e:
+                    out = "propagated" if e is exc else "replaced"
+                else:
+                    raise HarnessError("actor yielded after raise")
             self.gen = None
             if raw != self.pre:
                 diff = sorted(k for k in set(raw) | set(self.pre) if raw.get(k) != self.pre.get(k))
                 k = diff[0]
                 self.viol("abort-image", f"after exit by {type(exc).__name__} wrapped[{k.hex()}] is {raw.get(k)!r}, before the batch it was {self.pre.get(k)!r}")
-            st.fault("batch-abort-base" if how == "B" else "batch-abort")
-            st.probe("abort-base-exception" if how == "B" else "abort-exception")
+            st.fault("batch-abandoned-generator-exit" if how == "G" else ("batch-abort-base" if how == "B" else "batch-abort"))
+            st.probe("abort-generator-exit" if how == "G" else ("abort-base-exception" if how == "B" else "abort-exception"))
         self.buffer = {}
         if self.wrote and self.deleted:
             st.nontrivial = True
@@ -355,7 +367,7 @@ def generate(rng):
     for _ in range(rng.choice([0, 0, 1, 2])):
         prefix.append({"op": "open", "dd": int(rng.random() < 0.5)})
         prefix += gen_ops(rng, keys, vals, rng.randint(0, 6))
-        prefix.append({"op": "exit", "how": rng.choice(["normal", "normal", "E", "B"])})
+        prefix.append({"op": "exit", "how": rng.choice(["normal", "normal", "E", "B", "G"])})
         if rng.random() < 0.5:
             prefix += [c for c in gen_ops(rng, keys, vals, 2) if c["op"] in ("read", "contains", "other")]
     dd = int(rng.random() < 0.5)
@@ -387,6 +399,6 @@ def explore(rng, st):
     execute(variant(base, k, "normal"), st)
     nt = st.nontrivial
     for p in range(k + 1):
-        for how in ("E", "B"):
+        for how in ("E", "B", "G"):
             execute(variant(base, p, how), st)
     st.nontrivial = nt
